@@ -25,6 +25,20 @@ def replay(pid, path, seed):
     inp = os.path.join(ctx.dir, "replay.in.ndjson")
     outp = os.path.join(ctx.dir, "replay.out.ndjson")
     V.write_history_twice(inp, rec["history"])
+    if rec.get("kind") in ("hang", "hang-table"):
+        with open(inp, "w") as f:
+            for e in rec["history"]:
+                f.write(json.dumps(e) + "\n")
+        if rec["kind"] == "hang-table":
+            rc, o = V.sh([V.BIN, "table", pid, "-in", inp, "-out", outp, "-tier", "quick", "-seed", str(seed)], timeout=600, env={"VERIF_HANG_S": "30"})
+        else:
+            rc, o = V.sh([V.BIN, "replay", pid, "-in", inp, "-out", outp], timeout=600, env={"VERIF_HANG_S": "30"})
+        if rc == 3:
+            V.log("the call did not return again (stopped by the watchdog)")
+            V.log("VIOLATION property=%s replay=%s" % (pid, path))
+            return 1
+        V.log("the call returned on replay: not reproduced")
+        return 0
     if rec.get("kind") == "table":
         row = rec["history"][0]
         if "steps" in row:      # a TLC-generated behaviour: replay it again on a fresh build
